@@ -12,7 +12,7 @@ import (
 func init() {
 	register(&propDef{
 		ID:       "C20",
-		Explain:  "Decided for the synthetic target's generator (structural necessary conditions): all randomness comes from *rand.Rand objects created by rand.New(rand.NewSource(seed)) with the queue seed or the value's own seed, no package-level math/rand, no crypto/rand, time.Now only on the seed==0 edge of queue.New, and no map iteration order reaches the emitted sequence (same config + same non-zero seed => same draws, single goroutine); range generators clamp: the stored value is the maximum when above it, the minimum when below it, the drawn value otherwise (evaluated on all boundary combinations, int/uint/double); timestamp deltas are refused when min>max or min<0, so steps are non-negative, and the new timestamp is t + Int63n(max-min+1) + min; repeat boundaries: Repeat==1 drops the value without touching the message, Repeat>1 decrements the clone (never the configuration object), Repeat==0 leaves it, and Next re-adds a value only while it is alive; Next returns the head element read before it is advanced; unless disabled, a sync value with repeat 1 stamped with the same queue's latest timestamp is added after the queue is built; every generator/convertor covers all value kinds or returns an error/nil explicitly. Also decided: UpdateQueue.Next removes the returned entry from the head before it re-inserts the regenerated value (addValue's placement search never sees the entry being returned). Round-3 addition: a value computed from a random draw never reaches .Value without passing both range comparisons. Also decided: the placement search of addValue replayed with 0..3 queued buckets and the new timestamp at every position (strictly before bucket k => new bucket at index k, equal to bucket k => joins bucket k, the search terminates) - the per-call core of 'non-decreasing timestamp order'. Round-4 additions: the range gate of update{Int,Uint,Double}Value replayed over the orderings of value/minimum/maximum (closed range accepted, outside refused); FixedQueue never stores into the caller's response slice it shares; slices.BinarySearchFunc in addValue is taken by contract with the comparison function's orientation decided. Round-5 addition: every value that stays alive gets a new timestamp in nextValue, the payload-free delete and sync markers included. Round-6 additions: UpdateQueue.Next and Add are one critical section each (the head that is returned is the head that is popped); the fake client writes the subscriber's target only into a proto.Clone or a freshly built response, never into a part shared with the configuration.",
+		Explain:  "Decided for the synthetic target's generator (structural necessary conditions): all randomness comes from *rand.Rand objects created by rand.New(rand.NewSource(seed)) with the queue seed or the value's own seed, no package-level math/rand, no crypto/rand, time.Now only on the seed==0 edge of queue.New, and no map iteration order reaches the emitted sequence (same config + same non-zero seed => same draws, single goroutine); range generators clamp: the stored value is the maximum when above it, the minimum when below it, the drawn value otherwise (evaluated on all boundary combinations, int/uint/double); timestamp deltas are refused when min>max or min<0, so steps are non-negative, and the new timestamp is t + Int63n(max-min+1) + min; repeat boundaries: Repeat==1 drops the value without touching the message, Repeat>1 decrements the clone (never the configuration object), Repeat==0 leaves it, and Next re-adds a value only while it is alive; Next returns the head element read before it is advanced; unless disabled, a sync value with repeat 1 stamped with the same queue's latest timestamp is added after the queue is built; every generator/convertor covers all value kinds or returns an error/nil explicitly. Also decided: UpdateQueue.Next removes the returned entry from the head before it re-inserts the regenerated value (addValue's placement search never sees the entry being returned). Round-3 addition: a value computed from a random draw never reaches .Value without passing both range comparisons. Also decided: the placement search of addValue replayed with 0..3 queued buckets and the new timestamp at every position (strictly before bucket k => new bucket at index k, equal to bucket k => joins bucket k, the search terminates) - the per-call core of 'non-decreasing timestamp order'. Round-4 additions: the range gate of update{Int,Uint,Double}Value replayed over the orderings of value/minimum/maximum (closed range accepted, outside refused); FixedQueue never stores into the caller's response slice it shares; slices.BinarySearchFunc in addValue is taken by contract with the comparison function's orientation decided. Round-5 addition: every value that stays alive gets a new timestamp in nextValue, the payload-free delete and sync markers included. Round-6 additions: UpdateQueue.Next and Add are one critical section each (the head that is returned is the head that is popped); the fake client writes the subscriber's target only into a proto.Clone or a freshly built response, never into a part shared with the configuration. Round-7 addition: the timestamp buckets of the queue never share a backing array (no two-index sub-slice is stored as a bucket; addValue appends in place).",
 		NotCover: "ordering with more than 3 queued buckets (the search is replayed exhaustively for 0..3 buckets and every position of the new timestamp; larger queues by the same arms), exact repeat counts when Add is called during iteration, overflow of max-min+1, concurrent use (Latest reads without the mutex)",
 		Run:      runC20,
 	})
@@ -55,10 +55,10 @@ func runC20(c *Ctx) {
 				c.Analysed(fnName(f))
 				for _, ci := range callsIn(f) {
 					cal := staticCallee(ci.Common())
-					if cal == nil || cal.Pkg == nil {
+					if cal == nil {
 						continue
 					}
-					pp := cal.Pkg.Pkg.Path()
+					pp := pkgPathOf(cal)
 					switch {
 					case pp == "crypto/rand":
 						c.Bad("C20.seeded", fnName(f), "call of crypto/rand."+cal.Name(), P.Pos(ci.Pos()), "unseedable randomness")
@@ -260,6 +260,7 @@ func runC20(c *Ctx) {
 	// ---- the fixed generator plays its configuration without writing into it
 	nextAtomic(c, "C20.next-atomic")
 	configIntact(c, "C20.config-intact")
+	bucketsDisjoint(c, "C20.buckets-disjoint")
 	c.Rule("C20.fixed-intact", "FixedQueue: NewFixed keeps the caller's response slice (the configuration every Subscribe/Poll is reset from), so no FixedQueue method stores into an element of resp or through a response taken from it - unless NewFixed copies the slice first; a second generator built from the same configuration must find it unchanged")
 	{
 		fResp := P.Field("testing/fake/queue", "FixedQueue", "resp")
